@@ -367,6 +367,43 @@ def history_sampling_search(ctx):
     return ev, viol
 
 
+def option_paths_search(ctx):
+    """call options of SRF.__call__ that rescale the field: `point_volumes` with the upscaling methods.  Under the default
+    'no_scaling' the field (nugget noise included) must be the field without point volumes — the pointwise variance stays
+    var + nugget; under 'coarse_graining' it is that field times sqrt(documented variance factor)."""
+    import gstools as gs
+    rng = np.random.RandomState(ctx.seed + 606)
+    viol, ev = [], 0
+    with warnings.catch_warnings():
+        warnings.simplefilter("ignore")
+        for t in range(ctx.scale(12, 60)):
+            dim = int(rng.randint(1, 4))
+            nug = float(rng.choice([0.0, 0.3, 1.0]))
+            name = str(rng.choice(["Gaussian", "Exponential", "Matern"]))
+            model = getattr(gs, name)(dim=dim, var=float(rng.choice([0.5, 2.0])), len_scale=float(rng.choice([1.0, 3.0])), nugget=nug)
+            pos = rng.rand(dim, 6) * 8
+            seed = int(rng.randint(0, 2 ** 31 - 1))
+            pv = float(rng.choice([0.5, 2.0, 30.0])) if rng.rand() < 0.5 else rng.uniform(0.1, 20.0, size=6)
+            mesh = "unstructured"
+            base = gs.SRF(model, seed=seed, mode_no=24)(pos, mesh_type=mesh)
+            for up in ("no_scaling", "coarse_graining"):
+                if up == "coarse_graining" and nug > 0:
+                    continue
+                got = gs.SRF(model, seed=seed, mode_no=24, upscaling=up)(pos, mesh_type=mesh, point_volumes=pv)
+                if up == "no_scaling":
+                    want = base
+                else:
+                    edge = np.asarray(pv, dtype=float) ** (1.0 / dim)
+                    want = base * np.sqrt((model.len_scale ** 2 / (model.len_scale ** 2 + edge ** 2 / 4)) ** (dim / 2.0))
+                ev += 1
+                if not np.allclose(got, want, rtol=1e-12, atol=1e-12):
+                    viol.append({"key": f"option:point_volumes:{up}",
+                                 "what": f"SRF(..., upscaling='{up}')(pos, point_volumes=...) is not the plain field times the documented factor "
+                                         f"(max deviation {float(np.max(np.abs(got - want))):.3g}; nugget={nug})",
+                                 "case": dict(model=repr(model), seed=seed, point_volumes=np.asarray(pv).tolist(), pos=pos.tolist())})
+    return ev, viol
+
+
 def search(ctx, deep=False):
     import gstools as gs
     rng = np.random.RandomState(ctx.seed + 1)
@@ -466,13 +503,15 @@ def search(ctx, deep=False):
     ev_s, v_s = sampling_search(ctx, deep)
     ev_f, v_f = fourier_finite_search(ctx)
     ev_h, v_h = history_sampling_search(ctx)
-    ev += ev_s + ev_f + ev_h
-    viol = v_h + v_f + v_s + viol
+    ev_o, v_o = option_paths_search(ctx)
+    ev += ev_s + ev_f + ev_h + ev_o
+    viol = v_o + v_h + v_f + v_s + viol
     return {"evaluations": ev, "violations": viol[:40],
             "summary": f"spectral-sampling test ({ev_s} generators: seed-averaged conditional covariance (var/N) sum cos<k_j,h> against model.correlation, "
                        "6 sigma and 2 % of the variance; 17 classes x dim 1-3 x mode_no 64/1000 in thorough, a rotating subset in quick); "
                        f"{ev_f} Fourier fields of numerical-spectrum models checked for finiteness; "
                        f"{ev_h} generators reached through in-place model changes compared with freshly built ones (wave vectors / weights bit-identical); "
+                       f"{ev_o} calls with point_volumes under both upscaling methods against the plain field times the documented factor; "
                        f"seed ensembles ({M} seeds per configuration, {len(configs)} configurations incl. anisotropic/rotated models, nugget, one MCMC-sampled model "
                        "in quick / all in thorough): mean, pointwise variance and lag covariances against model.covariance at a 6-sigma threshold; "
                        "Fourier ensembles against the spectral Riemann sum and that sum against the model (5 % of var)"}
